@@ -34,8 +34,12 @@ pub struct StorageSnapshot {
 
 impl StorageSnapshot {
     fn ensure_stats_cache_loaded(&self) {
+        #[cfg(nervusdb_verif)]
+        let _vh1 = crate::verif::acquire("stats_cache");
         let mut cache = self.stats_cache.lock().unwrap();
         if cache.is_none() {
+            #[cfg(nervusdb_verif)]
+            let _vh2 = crate::verif::acquire("pager");
             let pager = self.pager.read().unwrap();
             if let Ok(stats) = self.inner.get_statistics(&pager) {
                 *cache = Some(stats);
@@ -45,6 +49,8 @@ impl StorageSnapshot {
 
     fn cached_stats_clone(&self) -> Option<crate::stats::GraphStatistics> {
         self.ensure_stats_cache_loaded();
+        #[cfg(nervusdb_verif)]
+        crate::verif::touch("stats_cache");
         self.stats_cache.lock().unwrap().clone()
     }
 }
@@ -105,6 +111,8 @@ impl GraphSnapshot for StorageSnapshot {
         let index_name = format!("{}.{}", label, field);
 
         let def = {
+            #[cfg(nervusdb_verif)]
+            let _vh3 = crate::verif::acquire("index_catalog");
             let catalog = self.index_catalog.lock().unwrap();
             catalog.get(&index_name)?.clone()
         };
@@ -118,6 +126,8 @@ impl GraphSnapshot for StorageSnapshot {
         prefix.extend_from_slice(&def.id.to_be_bytes());
         prefix.extend_from_slice(&encode_ordered_value(&storage_value));
 
+        #[cfg(nervusdb_verif)]
+        let _vh4 = crate::verif::acquire("pager");
         let pager = self.pager.read().unwrap();
         let mut cursor = tree.cursor_lower_bound(&pager, &prefix).ok()?;
 
@@ -187,6 +197,8 @@ impl GraphSnapshot for StorageSnapshot {
             return None;
         }
 
+        #[cfg(nervusdb_verif)]
+        let _vh5 = crate::verif::acquire("pager");
         let pager = self.pager.read().unwrap();
         let storage_val =
             read_node_property_from_store(&pager, self.inner.properties_root, iid, key)?;
@@ -203,6 +215,8 @@ impl GraphSnapshot for StorageSnapshot {
             return None;
         }
 
+        #[cfg(nervusdb_verif)]
+        let _vh6 = crate::verif::acquire("pager");
         let pager = self.pager.read().unwrap();
         let storage_val =
             read_edge_property_from_store(&pager, self.inner.properties_root, edge, key)?;
@@ -213,6 +227,8 @@ impl GraphSnapshot for StorageSnapshot {
         let mut props = self.inner.node_properties(iid).unwrap_or_default();
 
         if self.inner.properties_root != 0 {
+            #[cfg(nervusdb_verif)]
+            let _vh7 = crate::verif::acquire("pager");
             let pager = self.pager.read().unwrap();
             extend_node_properties_from_store(&pager, self.inner.properties_root, iid, &mut props)?;
         }
@@ -232,6 +248,8 @@ impl GraphSnapshot for StorageSnapshot {
             .unwrap_or_default();
 
         if self.inner.properties_root != 0 {
+            #[cfg(nervusdb_verif)]
+            let _vh8 = crate::verif::acquire("pager");
             let pager = self.pager.read().unwrap();
             extend_edge_properties_from_store(
                 &pager,
